@@ -360,7 +360,8 @@ Definition reflect_confirm (SO : stf_oracle) (s : wstate) (hh : N) (proof : list
   let total := total_votes (s_stakes s) epoch in
   let present := fold_left (fun acc '(k, _) => acc + votes (s_stakes s) epoch k) proof 0 in
   let sigs_ok := forallb (fun '(k, sg) => so_ed25519 SO k hh sg) proof in
-  if total =? 0 then [] else
+  (* nobody can vote: nothing can be confirmed *)
+  if total =? 0 then flag 14 (negb c) 4 else
   flag 14 (negb c || sigs_ok) 1                                (* confirmed with an invalid signature *)
   ++ flag 14 (negb c || (2 * total <=? 3 * present)) 2         (* confirmed below two thirds *)
   ++ flag 14 (c || negb (sigs_ok && (2 * total <? 3 * present))) 3.   (* not confirmed above two thirds *)
